@@ -20,6 +20,11 @@ class Unsupported(Exception):
     """The traced code did something the translator does not model (fail closed)."""
 
 
+class Pruned(Exception):
+    """A target's `prune(atom, value)` predicate declined to explore the decision just taken; the path ends in a
+    `Raise OtherError` leaf of the model (explicitly unmodelled, never silently merged with another path)."""
+
+
 # ------------------------------------------------------------------------------------------
 # scalars
 # ------------------------------------------------------------------------------------------
@@ -214,6 +219,14 @@ def lift(x):
 def _bin(op, a, b):
     la, lb = lift(a), lift(b)
     if la is None or lb is None:
+        if isinstance(a, (list, tuple)) or isinstance(b, (list, tuple)):
+            # a NumPy scalar combined with a Python sequence converts the sequence to an array and broadcasts
+            # (`[g, *Chi] / np.linalg.norm(...)`); a symbolic scalar stands for a NumPy scalar
+            import operator
+            from . import symnp
+            f = {'add': operator.add, 'sub': operator.sub, 'mul': operator.mul, 'div': operator.truediv}[op]
+            conv = lambda t: symnp.array(t) if isinstance(t, (list, tuple)) else t
+            return f(conv(a), conv(b))
         return NotImplemented
     a, b = la, lb
     if a.is_const and b.is_const:
@@ -422,6 +435,7 @@ class _Ctx:
         self.trace = []      # (atom, value) taken on this run
         self.known = {}      # atom uid -> bool on this run
         self.assume = []     # caller-provided assumptions: list of (atom, bool)
+        self.prune = None    # optional predicate (atom, value) -> bool: cut the path after this decision
 
 
 CTX = _Ctx()
@@ -483,6 +497,8 @@ def decide(b):
     v = CTX.prefix[i] if i < len(CTX.prefix) else True
     CTX.trace.append((b, v))
     CTX.known[b.uid] = v
+    if CTX.prune is not None and CTX.prune(b, v):
+        raise Pruned(f"path not explored after deciding {b!r} = {v}"[:160])
     return v
 
 
@@ -501,9 +517,11 @@ RAISES = (ValueError, TypeError, ZeroDivisionError, IndexError, AttributeError, 
           _np.linalg.LinAlgError)
 
 
-def explore(thunk, max_paths=512, assume=()):
+def explore(thunk, max_paths=512, assume=(), prune=None):
     """Run `thunk()` under every feasible decision sequence.  Returns a decision tree whose
-    leaves are Leaf objects.  `assume` is a list of (B atom, bool) fixed before the run."""
+    leaves are Leaf objects.  `assume` is a list of (B atom, bool) fixed before the run.
+    `prune(atom, value)` (optional): when it returns True for a decision just taken, that path is cut and becomes
+    a `Raise OtherError` leaf (used for tolerance-terminated loops: the not-yet-converged side is left unmodelled)."""
     paths = []
     work = [[]]
     while work:
@@ -512,17 +530,22 @@ def explore(thunk, max_paths=512, assume=()):
         CTX.prefix = prefix
         CTX.trace = []
         CTX.known = {a.uid: v for a, v in assume}
+        CTX.prune = prune
         try:
             try:
                 out = thunk()
                 leaf = Leaf('val', out)
             except Unsupported:
                 raise
+            except Pruned as e:
+                leaf = Leaf('raise', 'Unexplored')
+                leaf.message = 'pruned: ' + str(e)
             except RAISES as e:
                 leaf = Leaf('raise', type(e).__name__)
                 leaf.message = str(e)
         finally:
             CTX.active = False
+            CTX.prune = None
         trace = list(CTX.trace)
         paths.append((trace, leaf))
         if len(paths) > max_paths:
